@@ -178,6 +178,29 @@ pub fn run(k: &str, a: &Value) -> Option<Value> {
                 Err(_) => { o.0.push(json!(["alignment failed", 0.0, 0.0, 1.0])); }
             }
         }
+        "align3" => {
+            use engeom::geom3::align3::points_to_mesh;
+            use engeom::common::DistMode;
+            let verts: Vec<Point3> = a["vertices"].as_array().unwrap().iter().map(p3).collect();
+            let faces: Vec<[u32; 3]> = a["faces"].as_array().unwrap().iter().map(|t| { let x = t.as_array().unwrap(); [x[0].as_u64().unwrap() as u32, x[1].as_u64().unwrap() as u32, x[2].as_u64().unwrap() as u32] }).collect();
+            let mesh = engeom::Mesh::new(verts, faces, false);
+            let points = vec![p3(&a["point"])];
+            let t0 = iso3(&a["iso"]);
+            let to_plane = a["mode"].as_str().unwrap() == "ToPlane";
+            match points_to_mesh(&points, &mesh, &t0, if to_plane { DistMode::ToPlane } else { DistMode::ToPoint }) {
+                Ok(al) => {
+                    for (i, p) in points.iter().enumerate() {
+                        let m = al.transform() * p;
+                        let sp = mesh.surf_closest_to(&m);
+                        let want = if to_plane { sp.scalar_projection(&m).abs() } else { (m - sp.point).norm() };
+                        let got = if i < al.residuals().len() { al.residuals()[i] } else { f64::NAN };
+                        o.s(&format!("residual {i} describes the returned transform"), got, want, 1e-9 * (1.0 + want.abs()));
+                    }
+                    o.s("one residual per input point", al.residuals().len() as f64, points.len() as f64, 0.0);
+                }
+                Err(_) => { o.0.push(json!(["alignment failed", 0.0, 0.0, 1.0])); }
+            }
+        }
         _ => return None,
     }
     Some(json!({"pairs": o.0}))
